@@ -882,13 +882,13 @@ def readFaceAscii (c : Coding α) (props : List (Bytes × SType × SType)) (fs :
     | [], points, bufs, _ => .ok (points, bufs)
     | (_, i) :: rest, points, bufs, toks =>
       match toks with
-      | [] => .error .panic          -- line[0]
+      | [] => .error .err            -- "missing its count" (reader_list_ascii.go:17-19)
       | t0 :: more =>
         match parseInt32 t0 with
         | none => .error .err
         | some count =>
-          if count < 0 then .error .panic
-          else if more.length < count.toNat then .error .panic     -- line[1:count+1]
+          if count < 0 then .error .err
+          else if more.length < count.toNat then .error .err     -- "declares n entries but only k are present"
           else
             let items := more.take count.toNat
             let r1 : R (Int × FaceBufs α) :=
@@ -954,14 +954,15 @@ def readVertsBin (c : Coding α) (e : Endian) (total : Nat) (built : List Built)
       pure (row :: rows, rest)
 
 /-- vertex loop, ASCII, over the non-empty lines -/
-def readVertsAscii (c : Coding α) (built : List Built) :
+def readVertsAscii (c : Coding α) (nprops : Nat) (built : List Built) :
     Nat → List Bytes → R (List (List (List α)) × List Bytes)
   | 0, ls => .ok ([], ls)
   | _ + 1, [] => .error .err
-  | n + 1, l :: ls => do
-    let row ← built.mapM (fun b => b.readAscii c (fields l))
-    let (rows, rest) ← readVertsAscii c built n ls
-    pure (row :: rows, rest)
+  | n + 1, l :: ls =>
+    if (fields l).length < nprops then .error .err else do     -- "vertex i has k of n properties" (reader.go:458-460)
+      let row ← built.mapM (fun b => b.readAscii c (fields l))
+      let (rows, rest) ← readVertsAscii c nprops built n ls
+      pure (row :: rows, rest)
 
 structure ReaderCfg where
   attributeElement : Bytes
@@ -1007,7 +1008,7 @@ def readBody (c : Coding α) (cfg : ReaderCfg) (hdr : Header) (body : Bytes) : R
         let (rows, idxUv) ← (match hdr.format with
           | .ascii => do
             let lines := (scanLines body).filter (fun l => ¬ l.isEmpty)
-            let (rows, rest) ← readVertsAscii c built nv lines
+            let (rows, rest) ← readVertsAscii c props.length built nv lines
             match ← faceSetup with
             | none => pure (rows, none)
             | some (lp, fs, nf) => do
